@@ -185,6 +185,13 @@ func (core *JApiCore) setCurrentDirective(keyword string, keywordCoords directiv
 	d := directive.NewWithCallStack(de, keywordCoords, core.scannersStack.ToDirectiveIncludeTracer())
 	d.Keyword = keyword
 
+	// The banned directives are checked as soon as they are met, otherwise MACRO
+	// and PASTE (which disappear when macros are expanded) and directives inside
+	// macros would never be checked.
+	if _, ok := core.bannedDirectives[de]; ok {
+		return d.KeywordError(fmt.Sprintf("%s (%s)", jerr.DirectiveNotAllowed, de.String()))
+	}
+
 	core.currentDirective = d
 
 	return nil
